@@ -224,6 +224,10 @@ NEUTRALISED = {
              "(the inner assignment evaluated once per context node over a shared live scalar): on the current tree its demo passes",
     "C08-4": "confirmed when delivered (demo failed on the changed tree); the repair cc8e78b in /repo (encodeToString prints a copy) "
              "removes the mechanism the change relied on: on the current tree the change no longer breaks the property and its demo passes",
+    "C03-11": "confirmed when delivered (round 6: demo failed on the changed tree, the check caught it: 25 violation lines); the later repair 0e88942 "
+              "(del takes the key of a map entry as it is written instead of the parsed last path element) removes the second of the two cooperating sites "
+              "the change relied on: on the current tree deletes no longer depend on how getParsedKey types a key, the change no longer breaks C03 and its own "
+              "demo passes (it still breaks C16: the same mechanism, delivered against C16 in round 10 as C16-18, is caught there)",
 }
 
 rows = []
@@ -256,6 +260,10 @@ for name in sorted(names):
         # kept in an earlier round (delivery directory gone): the stored meta.json stands; a re-sweep result
         # (SEED_FAST: build + check only) refreshes what the check said
         new = json.load(open(os.path.join(out, "meta.json")))
+        if name in NEUTRALISED and not new.get("neutralised_by_repair"):
+            new["neutralised_by_repair"] = NEUTRALISED[name]
+            new["caught"] = False
+            json.dump(new, open(os.path.join(out, "meta.json"), "w"), indent=1, ensure_ascii=False)
         if r and r["build"] and r["chk"] != "?" and not new.get("neutralised_by_repair"):
             new["check"] = {"id": r["chk"], "tier": r["tier"], "exit": r["rc"], "violation_lines": r["nv"], "first_violation": r["first"][:300]}
             new["caught"] = r["rc"] == 1 and r["nv"] > 0
